@@ -144,7 +144,25 @@ let () =
                        gr_width = gw; gr_per = List.map snd ib; gr_data = data } in
              if !p < Array.length w && w.(!p) = "GRID" then print_grid g
              else if w.(0) = "WRITE" then print_toks (write_restart g)
-             else out (read_restart fops cvs g (toks_after ()))
+             else (match read_restart fops cvs g (toks_after ()) with
+                   | None -> Printf.printf "ERR\n"
+                   | Some (g1, _) ->
+                     (* + one bin past each edge of the grid read back: wrapped index, or -9 when outside *)
+                     let nd1 = List.length g1.gr_nx in
+                     let probes = List.concat (List.init nd1 (fun d ->
+                         List.map (fun side ->
+                             let ix = List.mapi (fun k n -> if k = d then (if side then n else z_of_int (-1)) else z_of_int 0) g1.gr_nx in
+                             let wx = wrap_index g1.gr_per g1.gr_nx ix in
+                             if index_ok g1.gr_nx wx then int_of_z (List.nth wx d) else -9) [false; true])) in
+                     let buf = Buffer.create 256 in
+                     let fl_list tag l = Printf.sprintf " %s %d%s" tag (List.length l) (String.concat "" (List.map (fun x -> " " ^ hex x) l)) in
+                     Buffer.add_string buf (Printf.sprintf "G %d %d%s%s%s%s P %d%s%s" (int_of_z g1.gr_mult) nd1
+                       (String.concat "" (List.map (fun z -> " " ^ string_of_int (int_of_z z)) g1.gr_nx))
+                       (fl_list "L" g1.gr_lower) (fl_list "U" g1.gr_upper) (fl_list "W" g1.gr_width)
+                       (List.length g1.gr_per) (String.concat "" (List.map (fun b -> if b then " 1" else " 0") g1.gr_per))
+                       (fl_list "D" g1.gr_data));
+                     Printf.printf "%s E %d%s\n" (Buffer.contents buf) (List.length probes)
+                       (String.concat "" (List.map (fun i -> " " ^ string_of_int i) probes)))
            end else begin
              let mult = ni () in let nd = ni () in
              let nx = nzlist nd in let lower = nflist nd in let upper = nflist nd in let width = nflist nd in
